@@ -18,7 +18,9 @@ CLAIM = dict(
          "names, each once); enc_inv_reachable (the side condition EncInv of C02's wiring_correct is derived for every reachable "
          "graph from universe facts + 'a definition has one export name'); no_late_failure_partial (for reachable graphs the "
          "modelled causes of a post-hoc failure - dangling index, missing / duplicated / extra argument, unchecked argument, stale "
-         "or missing export name - do not occur in an output of the model encoder). Search: >= 400 accepted compositions per quick "
+         "or missing export name - do not occur in an output of the model encoder); encoder_panics_classified (the model encoder's "
+         "graph-consistency panics are unreachable for reachable graphs: only the three index-bookkeeping sites remain, and XBadNode "
+         "exactly as the rendering of a failed merge of an explicit import). Search: >= 400 accepted compositions per quick "
          "run (graph-API histories incl. removal / unregistration over a library of 28 components: hand-shaped WAT and WIT-derived "
          "with records, variants, lists, options, results, enums, flags, resources, cross-interface and world-level `use`, versioned "
          "interface names on equal and different semver tracks; generated WAC documents; the repository's WAC fixtures), each encoded "
@@ -28,7 +30,8 @@ CLAIM = dict(
     design_ref="DESIGN.md §5 C01, §10",
     note="level 'proof, partial': validity itself is decided by the reference validator (oracle). Trusted: Coq kernel, extraction, "
          "OCaml driver, Rust harness (generator, section reader, supervisor), wasmparser validator. TypeEncoder is a parameter of "
-         "the encoder model; its faults are found by search only (13 known findings listed with narrow signatures).",
+         "the encoder model; its faults are found by search only (16 known findings listed with narrow signatures, 5 of them the C05 "
+         "encoder findings that surface as late validation failures / encoder panics).",
     technique="Coq proofs (history invariants, permutation argument, corollaries of the C02 simulation) + validator-as-oracle search "
               "+ extracted predicates evaluated on real outputs")
 
@@ -87,7 +90,9 @@ KNOWN_MATCH = {
         lambda k, m, t, mo: k in ("late-validation-failure", "invalid-binary") and re.match(r"import name `..` conflicts with previous name", m)
         and has(t, r"^(D:type\+(world|iface)|M:component|S:world\+uses|M:type\+(world|iface))"),
     "C05-encoder-resource-name-key":
-        lambda k, m, t, mo: k == "panic" and "wac-graph/src/encoding.rs" in m and "no entry found for key" in m and has(t, r"^D:type\+(iface|world)\S*\+uses"),
+        lambda k, m, t, mo: (k == "panic" and "wac-graph/src/encoding.rs" in m and "no entry found for key" in m and has(t, r"^D:type\+(iface|world)\S*\+uses"))
+        or (k in ("late-validation-failure", "invalid-binary") and "resource types are not the same" in m and has(t, r"^M:type\+res$")
+            and has(t, r"^(U|M|G:\w+):func\+nn\+h")),
     "C05-encoder-alias-name-leak":
         lambda k, m, t, mo: k == "panic" and "wac-graph/src/encoding.rs" in m and "should have owner" in m and has(t, r"^D:type\+(iface|world)\S*\+uses"),
     "C05-encoder-alias-of-used-type":
@@ -174,7 +179,9 @@ PROPOSED_KNOWN = [
          text="world that imports interface I explicitly and also depends on I through `use`: TypeEncoder::component imports the "
               "dependency first and then the explicit import again -> ValidationFailure `import name conflicts with previous name`"),
     dict(property=PID, id="C05-encoder-resource-name-key", status="known", witness=_w("k-res-key-3"), signature="encoder-resource-name-key",
-         text="TypeEncoder keys resources by definition name: alias of a used resource alias -> encode panics `no entry found for key`"),
+         text="TypeEncoder keys resources by definition name: alias of a used resource alias -> encode panics `no entry found for key`; an "
+              "explicit import of a resource under another name (tag M:type+res) takes over the key, a function over the resource then refers "
+              "to the wrong import -> `resource types are not the same`"),
     dict(property=PID, id="C05-encoder-alias-name-leak", status="known", witness=_w("k-alias-leak-4"), signature="encoder-alias-name-leak",
          text="use_aliases clears the alias map: a resource alias obtained by `use` after an instance import -> encode panics `should have owner`"),
     dict(property=PID, id="C05-encoder-alias-of-used-type", status="known", witness=_w("k-alias-used"), signature="encoder-alias-of-used-type",
@@ -398,13 +405,15 @@ def run(res, tier, seed, replay):
                     known_hits.setdefault(i, []).append(row)
             else:
                 prop_fail.append((row, kind, mode, raw))
+    replayed = {r["case"] for r in rows}
     for e in known:
         hits = known_hits.get(e["id"], [])
         if e.get("status") == "known" and hits:
             wit = [r for r in hits if r["case"] == e.get("witness")]
             w = e.get("witness", "")
+            state = "still fails" if wit else ("replayed: no longer fails" if w in replayed else "not replayed in this run")
             res.known.append(f"{e['id']}: {e['text']} [witness `{w if len(w) < 90 else w[:60] + '...'}` "
-                             f"{'still fails' if wit else 'not replayed in this run'}; {len(set(r['case'] for r in hits))} composition(s) of this run match the signature]")
+                             f"{state}; {len(set(r['case'] for r in hits))} composition(s) of this run match the signature]")
     res.coverage.update(dict(
         evaluations=len(rows) * 4, compositions=len(rows), case_kinds=kinds, encodable_compositions=encodable,
         binaries_validated_independently=validated, correspondence_cases=sum(1 for r in rows if r["model"] is not None),
